@@ -237,6 +237,7 @@ impl Tm {
         Ok(found)
     }
     fn step(&self, l: usize, s: usize, dec: Option<isize>) -> Result<(usize, isize), String> {
+        if l >= self.n || s >= self.s { return Err(format!("no layer {} / state {} in this model ({} layers)", l, s, self.n)); }
         let d = match dec {
             Some(d) => d,
             None => {
@@ -424,8 +425,9 @@ impl Model for Tm {
         Ok((self.mk(depth, 1 << s), v))
     }
     fn hstar(&self, depth: usize, st: &St) -> Option<isize> {
+        // total: the depth may come from a sub-problem produced by the library under test
         let s = self.single(st)?;
-        self.h[depth][s]
+        self.h.get(depth).and_then(|row| row.get(s)).copied().flatten()
     }
     fn completions(&self, depth: usize, st: &St) -> Vec<FullPath> {
         let mut out = vec![];
@@ -449,7 +451,7 @@ impl Model for Tm {
         let mut v = 0;
         if c.depth < root.depth { return None; }
         for l in root.depth..c.depth {
-            let d = pi.decisions[l - root.depth].value;
+            let d = pi.decisions.get(l - root.depth)?.value;
             let (t, cst) = self.step(l, s, Some(d)).ok()?;
             s = t;
             v += cst;
